@@ -444,6 +444,24 @@ func genDataset(r *core.Rand, w *world, p profile) *dataset {
 			ds.rows[w.pic] = append(ds.rows[w.pic], rw)
 		}
 	}
+	// orgs: every level's key tuple is drawn like a foreign key aimed at the nodes (existing / dangling /
+	// NULL / partially NULL / zero part); it is the foreign key of the level's belongs-to and the
+	// referenced key of its has-many / has-one, so it is never an all-zero non-NULL tuple
+	if w.org != nil {
+		for i, n := 0, r.Range(2, 4); i < n; i++ {
+			rw := &row{u: next(), vals: map[string]val{}, deleted: r.Chance(1, 6)}
+			rw.vals["u"] = rw.u
+			payload(r, rw)
+			for _, g := range w.org.groups {
+				t := genFK(r, w.kinds[:len(g)], nodeKeys, nullableOf(w.org, g), p)
+				if !hasNull(t) && allZero(t) {
+					t = append(tuple(nil), core.Pick(r, nodeKeys)...)
+				}
+				set(rw, g, t)
+			}
+			ds.rows[w.org] = append(ds.rows[w.org], rw)
+		}
+	}
 	return ds
 }
 
